@@ -285,6 +285,16 @@ inline void Dedicated(const Table& tab, Result& res, std::unordered_set<u64>& di
                                          Fmt("DMA channel %d register +0x%03X reads %04X, written %04X (channels must hold independent copies)", ch, o, got, want),
                                          Fmt("c12 dmawin %d", path));
                 }
+                // the host's channel-0 query helpers look at channel 0 through the same window: they must return channel 0's words
+                // and leave the window where the program put it
+                u16 h_src = m.teakra->DMAChan0GetSrcHigh(), h_dst = m.teakra->DMAChan0GetDstHigh();
+                ++res.evaluations;
+                if (h_src != val(0, 0x1C2) || h_dst != val(0, 0x1C6))
+                    res.AddViolation(Fmt("c12:dma-window:host-query-value:ch%d:%s", ch, path ? "dsp-path" : "host-path"),
+                                     Fmt("DMAChan0GetSrcHigh/DstHigh return %04X/%04X, channel 0 holds %04X/%04X", h_src, h_dst, val(0, 0x1C2), val(0, 0x1C6)), Fmt("c12 dmawin %d", path));
+                if (ac.Read(0x1BE) != ch || ac.Read(0x1C0) != val((u16)ch, 0x1C0) || ac.Read(0x1C6) != val((u16)ch, 0x1C6))
+                    res.AddViolation(Fmt("c12:dma-window:host-query-moves-window:ch%d:%s", ch, path ? "dsp-path" : "host-path"),
+                                     Fmt("after DMAChan0GetSrcHigh/DstHigh with channel %d selected: select reads %u, +0x1C0 reads %04X (channel's value %04X)", ch, ac.Read(0x1BE), ac.Read(0x1C0), val((u16)ch, 0x1C0)), Fmt("c12 dmawin %d", path));
             }
         } catch (const T::VerifAssertion& a) {
             res.AddViolation("c12:dma-window:assert", a.expression, Fmt("c12 dmawin %d", path));
